@@ -27,7 +27,7 @@ Qed.
 Definition same_but_store (a b : sst) : Prop :=
   acks a = acks b /\ reads a = reads b /\ lastread a = lastread b /\ nacked a = nacked b /\ eng a = eng b /\
   dn a = dn b /\ lastp a = lastp b /\ att a = att b /\ ph a = ph b /\ tdacks a = tdacks b /\
-  tdh a = tdh b /\ tdtx a = tdtx b.
+  tdh a = tdh b /\ tdtx a = tdtx b /\ hs a = hs b.
 
 Lemma same_but_store_refl a : same_but_store a a.
 Proof. repeat split. Qed.
@@ -108,7 +108,9 @@ Record RelS (x : sstate) (a : sst) : Prop := {
   r_plug : plug x = negb (pc x =? 4);
   r_open : streamOpen x = (pc x <=? 2);
   r_closed : closed x = (2 <=? pc x);
-  r_lr : lastRead x = lastread a
+  r_lr : lastRead x = lastread a;
+  r_hs : dn a < hs a -> streamOpen x = true -> dq x <> [];
+  r_hs_le : hs a <= S (dn a)
 }.
 
 Record G (y : sys) (t : tst) : Prop := {
@@ -120,10 +122,10 @@ Record G (y : sys) (t : tst) : Prop := {
 (* RelS only needs some fields of the tracked state, and a coverage that does not shrink *)
 Lemma RelS_ext x a a' :
   RelS x a -> acks a' = acks a -> dn a' = dn a -> att a' = att a -> ph a' = ph a ->
-  lastread a' = lastread a -> cov c a <= cov c a' -> RelS x a'.
+  lastread a' = lastread a -> cov c a <= cov c a' -> hs a' = hs a -> RelS x a'.
 Proof.
-  intros H E1 E2 E3 E4 E5 Hc. destruct H.
-  constructor; unfold ack_at in *; rewrite ?E1, ?E2, ?E3, ?E4, ?E5; auto. lia.
+  intros H E1 E2 E3 E4 E5 Hc E6. destruct H.
+  constructor; unfold ack_at in *; rewrite ?E1, ?E2, ?E3, ?E4, ?E5, ?E6; auto. lia.
 Qed.
 
 Lemma entry_ok_ext t t' fl fl' e :
@@ -356,7 +358,7 @@ Proof.
                                 list_eqb_nat (firstn (length ks) (skipn (nacked (src t s)) (reads (src t s)))) ks)
                                (seenw (src t s)) (wn (src t s)) (okmax (src t s)) (attmax (src t s))
                                (stag (src t s)) (spos (src t s)) (dn (src t s)) (lastp (src t s)) (att (src t s))
-                               (ph (src t s)) (tdacks (src t s)) (tdh (src t s)) (tdtx (src t s))).
+                               (ph (src t s)) (tdacks (src t s)) (tdh (src t s)) (tdtx (src t s)) (hs (src t s))).
   { unfold t1. simpl. apply upd_same. }
   assert (Heo : entry_ok t1 (fl_entries (Pst y)) (mkE s sq (lastp_of ks) (CbAck sq))).
   { unfold entry_ok. cbn [e_conn e_tag e_pos e_cb]. rewrite Ht1s. simpl. apply Nat.ltb_lt in Hc.
@@ -525,7 +527,7 @@ Proof.
            rewrite Hfx. simpl. lia.
     + intros s. eapply RelS_ext; [apply (g_s _ _ HG)|..].
       all: try (change (src t' s) with (apply_writes commitok (src t) ws s);
-                destruct (apply_writes_frame commitok ws (src t) s) as (F1 & F2 & F3 & F4 & F5 & F6 & F7 & F8 & F9 & F10); congruence).
+                destruct (apply_writes_frame commitok ws (src t) s) as (F1 & F2 & F3 & F4 & F5 & F6 & F7 & F8 & F9 & F10 & F11 & F12 & F13); congruence).
       apply (apply_writes_cov_mono c commitok ws (src t)).
   - (* NewTransaction failed *)
     assert (Ha : acc_ok c t ETxFail = true) by (simpl; rewrite p1; reflexivity).
@@ -608,6 +610,8 @@ Proof.
   - intros Ho. destruct (closed x) eqn:Hc; [auto|].
     rewrite map_app, app_length, seq_app, (r_dq_seq0 Ho), Hr1. f_equal. f_equal. specialize (Hd3 eq_refl). lia.
   - lia.
+  - intros H1 H2. specialize (r_hs0 H1 H2). destruct (closed x); [exact r_hs0|].
+    destruct (dq x); [congruence|discriminate].
 Qed.
 
 Lemma step_callback y t i y' : G y t -> step m y (ACallback i) = Some y' -> steps_ok y t y'.
@@ -636,7 +640,7 @@ Qed.
 Definition sendfail_st (x : sst) (n : nat) : sst :=
   mkS (acks x) (reads x) (lastread x) (nacked x) (eng x) (seenw x) (wn x) (okmax x) (attmax x) (stag x) (spos x)
       (if S (att x) =? retries c then n else dn x) (lastp x)
-      (if S (att x) =? retries c then 0 else S (att x)) (ph x) (tdacks x) (tdh x) (tdtx x).
+      (if S (att x) =? retries c then 0 else S (att x)) (ph x) (tdacks x) (tdh x) (tdtx x) (hs x).
 
 Lemma track_sendfail t s n :
   track c t (ESendFail s n) = mkT (upd (src t) s (sendfail_st (src t s) n)) (intx t) true.
@@ -645,13 +649,13 @@ Proof. reflexivity. Qed.
 Lemma RelS_head_done x a a' n ks r :
   RelS x a -> dq x = (n, ks) :: r -> streamOpen x = true ->
   acks a' = acks a -> dn a' = n -> att a' = 0 -> ph a' = ph a -> lastread a' = lastread a ->
-  cov c a <= cov c a' ->
+  cov c a <= cov c a' -> hs a' = hs a ->
   RelS (mkSS (plug x) (stT x) (stP x) (nextSeq x) (pending x) (durable x) r 0
              (closed x) (tearing x) true (pc x) (timedout x) (lastRead x)) a'.
 Proof.
-  intros H Hdq Ho E1 E2 E3 E4 E5 Hc. rewrite <- Ho. destruct H. specialize (r_dq_seq0 Ho). rewrite Hdq in *. simpl in *.
+  intros H Hdq Ho E1 E2 E3 E4 E5 Hc E6. rewrite <- Ho. destruct H. specialize (r_dq_seq0 Ho). rewrite Hdq in *. simpl in *.
   inversion r_dq_seq0 as [[Hn Hr]].
-  constructor; simpl; unfold ack_at in *; rewrite ?E1, ?E2, ?E3, ?E4, ?E5; auto; try lia.
+  constructor; simpl; unfold ack_at in *; rewrite ?E1, ?E2, ?E3, ?E4, ?E5, ?E6; auto; try lia.
   - destruct r_pend0 as (d & Hd1 & Hd2 & Hd3). exists d. repeat split; auto. intros Hcl. specialize (Hd3 Hcl). lia.
   - intros _. rewrite Hn. exact Hr.
 Qed.
@@ -692,7 +696,7 @@ Proof.
         assert (Ht1 : src t1 s = mkS (acks (src t s)) (reads (src t s)) (lastread (src t s)) (nacked (src t s))
                                   (eng (src t s)) (seenw (src t s)) (wn (src t s)) (okmax (src t s))
                                   (attmax (src t s)) (stag (src t s)) (spos (src t s)) n (lastp (src t s)) 0
-                                  (ph (src t s)) (tdacks (src t s)) (tdh (src t s)) (tdtx (src t s))).
+                                  (ph (src t s)) (tdacks (src t s)) (tdh (src t s)) (tdtx (src t s)) (hs (src t s))).
         { rewrite Et1, track_sendfail. cbn [src]. rewrite upd_same. unfold sendfail_st. rewrite Hatt, Hex. reflexivity. }
         assert (HG1 : G (mkSys (Pst y) (supd (Src y) s
                        (mkSS (plug x) (stT x) (stP x) (nextSeq x) (pending x) (durable x) r 0
@@ -816,7 +820,7 @@ Proof.
   assert (Hs1 : src t1 s = mkS (acks (src t s)) (reads (src t s)) (lastread (src t s)) (nacked (src t s))
                               (eng (src t s)) (seenw (src t s)) (wn (src t s)) (okmax (src t s)) (attmax (src t s))
                               (stag (src t s)) (spos (src t s)) (dn (src t s)) (lastp (src t s)) (att (src t s)) 2
-                              (tdacks (src t s)) (tdh (src t s)) (tdtx (src t s))).
+                              (tdacks (src t s)) (tdh (src t s)) (tdtx (src t s)) (hs (src t s))).
   { rewrite Et1. simpl. apply upd_same. }
   assert (Hph1 : ph (src t1 s) = 2) by (rewrite Hs1; reflexivity).
   assert (Htd1 : tdacks (src t1 s) = tdacks (src t s)) by (rewrite Hs1; reflexivity).
@@ -845,6 +849,33 @@ Proof.
         try (intros ? ? []).
     + rewrite supd_other by exact E. rewrite Et2. simpl. rewrite upd_other by exact E.
       rewrite Et1. simpl. rewrite upd_other by exact E. apply (g_s _ _ HG).
+Qed.
+
+(* ---------- a send that has begun and is parked in the plugin stream ---------- *)
+Lemma step_hold y t s y' : G y t -> step m y (AHold s) = Some y' -> steps_ok y t y'.
+Proof.
+  intros HG Hs. cbv beta iota zeta delta [step] in Hs. fold c in Hs. set (x := Src y s) in *.
+  destruct (dq x) as [|[n ks] r] eqn:Hdq; [discriminate|].
+  destruct ((s <? nsrc c) && plug x && streamOpen x) eqn:Hc; [|discriminate].
+  inversion Hs; subst y'; clear Hs.
+  repeat (apply andb_true_iff in Hc; destruct Hc as [Hc ?]). rename H into Ho.
+  pose proof (g_s _ _ HG s) as HS. fold x in HS. pose proof (g_p _ _ HG) as HP. pose proof (g_inv _ _ HG) as HI.
+  pose proof (r_dq_seq _ _ HS Ho) as Hseq. rewrite Hdq in Hseq. simpl in Hseq. injection Hseq as Hn Hr.
+  destruct (r_dq_ack _ _ HS n ks) as [Hack Hdur]; [rewrite Hdq; left; reflexivity|].
+  pose proof (r_dur _ _ HS) as Hcov.
+  assert (Hph : ph (src t s) <=? 1 = true).
+  { apply Nat.leb_le. rewrite (r_ph _ _ HS). pose proof (r_open _ _ HS) as Hop. rewrite Ho in Hop.
+    destruct (pc x) as [|[|[|[|k]]]]; cbn in Hop |- *; try lia; discriminate. }
+  assert (Ha : acc_ok c t (ESendHeld s n) = true).
+  { simpl. rewrite Hc, Hph. rewrite <- Hn, Nat.eqb_refl. simpl. apply Nat.leb_le. lia. }
+  exists [ESendHeld s n]. split; [reflexivity|]. split; [rewrite runchk_one; exact Ha|].
+  cbn [fold_left]. constructor; cbn [Pst Src].
+  - apply step_inv; assumption.
+  - simpl. apply RelP_set_src; auto; simpl; try reflexivity; try (left; reflexivity); try (unfold cov; simpl; lia).
+  - intros s'. simpl. destruct (Nat.eq_dec s' s) as [->|E]; [|rewrite upd_other by exact E; apply (g_s _ _ HG)].
+    rewrite upd_same. fold x. destruct HS. unfold ack_at, cov in *.
+    constructor; unfold ack_at, cov; simpl; auto; try lia.
+    intros _ _. rewrite Hdq. discriminate.
 Qed.
 
 (* ====================================================================================
@@ -1130,7 +1161,7 @@ Proof.
         -- destruct (H4 ltac:(lia)) as [Hwn _]. lia.
     + intros s. unfold Dst. cbn [Pst Src]. intros (H1 & H2 & H3 & H4).
       destruct (Hany H2) as (Hfa0 & -> & Hall).
-      destruct (Hfr s) as (_ & _ & _ & _ & _ & F6 & _ & _ & _ & F10 & F11 & F12).
+      destruct (Hfr s) as (_ & _ & _ & _ & _ & F6 & _ & _ & _ & F10 & F11 & F12 & _).
       pose proof (h2 s) as HD. unfold Dst in HD. rewrite F6, F10 in *. rewrite F11 in H1. rewrite F12 in *.
       assert (HH : Hh y t s) by (repeat split; auto).
       specialize (HD HH). destruct (pc (Src y s)) as [|[|[|[|k]]]]; auto.
@@ -1440,7 +1471,8 @@ Proof.
                   (eng (src t s)) (seenw (src t s)) (wn (src t s)) (okmax (src t s)) (attmax (src t s))
                   (stag (src t s)) (spos (src t s)) (dn (src t s)) (lastp (src t s)) (att (src t s)) 1
                   (length (acks (src t s)))
-                  (negb (anyfail t) && (intx t =? 0) && (okmax (src t s) <=? dn (src t s))) 0).
+                  (negb (anyfail t) && (intx t =? 0) && (okmax (src t s) <=? Nat.max (dn (src t s)) (hs (src t s)))) 0
+                  (hs (src t s))).
   { rewrite Et1. simpl. apply upd_same. }
   assert (Hany : anyfail t1 = anyfail t) by (rewrite Et1; reflexivity).
   set (y1 := mkSys (Pst y) (supd (Src y) s x1) []).
@@ -1481,7 +1513,12 @@ Proof.
            destruct Hcb as [-> _]. repeat split; auto.
         -- left. lia.
       * unfold fl_entries in Hr. rewrite Hnone in Hr. destruct Hr as [(e & [] & _)|(_ & Hk)].
-        left. fold x in Hk. rewrite <- (r_seq _ _ HS), <- Hk. lia.
+        left. fold x in Hk. rewrite <- (r_seq _ _ HS), <- Hk.
+        (* everything committed is delivered, or its send has begun: then it heads the queue *)
+        pose proof (r_hs _ _ HS) as Hhs. pose proof (r_hs_le _ _ HS) as Hle. pose proof (r_open _ _ HS) as Hop.
+        rewrite H in Hop. simpl in Hop.
+        destruct (Nat.max_spec (dn (src t s)) (hs (src t s))) as [[Hlt Hm]|[Hge Hm]]; rewrite Hm in Hok; [|lia].
+        specialize (Hhs Hlt Hop). destruct (dq x); [congruence|simpl; lia].
     + apply (Dst_trigger y1 t1); [apply Hph1| |exact Ht].
       eapply Dst_frame; [apply (h2 s0)|..]; unfold y1; cbn [Pst Src]; try rewrite supd_other by exact E;
         try rewrite (Ho s0 E); auto. rewrite Hany. auto.
@@ -1494,6 +1531,18 @@ Proof.
   - intros s0 Hpc. cbn [Src] in *. destruct (Nat.eq_dec s0 s) as [->|E].
     + rewrite supd_same. reflexivity.
     + rewrite supd_other in * by exact E. apply h5. exact Hpc.
+Qed.
+
+Lemma stepX_hold y t s y' : G y t -> X y t -> step m y (AHold s) = Some y' -> stepsX y t y'.
+Proof.
+  intros HG HX Hs. cbv beta iota zeta delta [step] in Hs. fold c in Hs.
+  destruct (dq (Src y s)) as [|[n ks] r]; [discriminate|].
+  destruct ((s <? nsrc c) && plug (Src y s) && streamOpen (Src y s)); [|discriminate].
+  inversion Hs; subst y'; clear Hs. exists [ESendHeld s n]. split; [reflexivity|].
+  cbn [fold_left]. eapply X_frame; [exact HX|..]; try reflexivity.
+  - intros s'. auto.
+  - intros s'. simpl. destruct (Nat.eq_dec s' s) as [->|E]; [rewrite upd_same|rewrite upd_other by exact E]; auto.
+  - auto.
 Qed.
 
 (* ---------- putting the two invariants together ---------- *)
@@ -1513,11 +1562,11 @@ Proof.
   assert (H1 : steps_ok y t y').
   { destruct a; [eapply step_read|eapply step_ack|eapply step_timer|eapply step_flush|eapply step_writedone
                 |eapply step_callback|eapply step_deliver|eapply step_tdbegin|eapply step_tdwaited
-                |eapply step_tdcancel|eapply step_tddown]; eauto. apply drain_from_X. exact HX. }
+                |eapply step_tdcancel|eapply step_tddown|eapply step_hold]; eauto. apply drain_from_X. exact HX. }
   assert (H2 : stepsX y t y').
   { destruct a; [eapply stepX_read|eapply stepX_ack|eapply stepX_timer|eapply stepX_flush|eapply stepX_writedone
                 |eapply stepX_callback|eapply stepX_deliver|eapply stepX_tdbegin|eapply stepX_tdwaited
-                |eapply stepX_tdcancel|eapply stepX_tddown]; eauto. }
+                |eapply stepX_tdcancel|eapply stepX_tddown|eapply stepX_hold]; eauto. }
   destruct H1 as (es & E1 & Ha & HG'). destruct H2 as (es' & E2 & HX').
   assert (es' = es).
   { rewrite E1 in E2. apply app_inv_tail in E2. rewrite <- (rev_involutive es), <- (rev_involutive es'), E2. reflexivity. }
